@@ -1149,6 +1149,9 @@ func triggersFor(body, q string) string {
 			switch h {
 			case "idx", "at", "select", "elemref":
 				s := n.String()
+				if strings.Contains(s, "(ite ") || strings.Contains(s, "(and ") || strings.Contains(s, "(or ") || strings.Contains(s, "(not ") || strings.Contains(s, "(=> ") {
+					break // z3 rejects patterns with boolean connectives / if-then-else
+				}
 				if !seen[s] {
 					seen[s] = true
 					pats = append(pats, s)
@@ -1157,6 +1160,9 @@ func triggersFor(body, q string) string {
 			default:
 				if h != "" && !strings.HasPrefix(h, "(") {
 					s := n.String()
+					if strings.Contains(s, "(ite ") || strings.Contains(s, "(and ") || strings.Contains(s, "(or ") || strings.Contains(s, "(not ") || strings.Contains(s, "(=> ") {
+						break
+					}
 					if !seen[s] {
 						seen[s] = true
 						pats = append(pats, s)
